@@ -184,6 +184,11 @@ impl Scenario for Entropy {
                 p.set("n", 24);
                 p.steps.push(Step::new("processes", &[(index % 2) as i64]));
             }
+            "fork" => {
+                // every entry point x warm-up calls before the fork in 0..=5 (a buffered generator holds a few draws)
+                p.set("n", 8);
+                p.steps.push(Step::new("fork", &[((index / (2 * ne)) % 6) as i64]));
+            }
             "marathon" => {
                 // one thread, one cheap entry point, a call history longer than 2^18 (quick) / 2^22 (thorough):
                 // counters, reservation blocks and reseed intervals inside a generator wrap or hand over at powers of two
@@ -242,6 +247,26 @@ impl Scenario for Entropy {
                 check_distinct(rec, "across one call history", name, &mode, g, &all);
                 check_against_earlier_runs(rec, name, g, plan.seed, &all);
                 rec.sample(|| format!("{} g={} mode={} calls={} first ephemerals={:?}", name, g.name(), mode, all.len(), all.first().map(|x| x.2.iter().map(|(l, b)| format!("{}={}", l, short(b))).collect::<Vec<_>>())));
+            }
+            "fork" => {
+                let exe = std::env::current_exe().unwrap();
+                let dev = Xo::derive(plan.seed, &[0xD46]).next();
+                let warm = plan.steps[0].arg(0).max(0) as usize;
+                let o = std::process::Command::new(&exe)
+                    .args(["entropy-child", &dev.to_string(), &plan.get("g").to_string(), &plan.get("entry").to_string(), &plan.get("scheme").to_string(), &warm.to_string(), "fork"])
+                    .output();
+                match o {
+                    Ok(o) if o.status.success() => {
+                        let out = String::from_utf8_lossy(&o.stdout).to_string();
+                        rec.stats.lib_calls += warm as u64 + 9;
+                        rec.fault("fork-after-use");
+                        rec.probe("forked-workers-compared");
+                        rec.expect("C20", "ephemerals-never-repeat", out.starts_with("OK"), || format!("{} value | a process forks twice after {} randomized calls; parent and workers then call again [fork] g={}: {}", name, warm, g.name(), out.trim()));
+                        rec.sample(|| format!("{} g={} mode=fork warm-up={}: {}", name, g.name(), warm, out.trim()));
+                    }
+                    Ok(o) => rec.note(format!("fork child failed: {}", String::from_utf8_lossy(&o.stderr))),
+                    Err(e) => rec.note(format!("cannot spawn fork child: {}", e)),
+                }
             }
             "marathon" => {
                 // in a process of its own: this one runs other simulations on other threads, and a process-wide
@@ -437,6 +462,99 @@ fn marathon_child(lib: &'static dyn Lib, g: Grp, op: Op, fx: &Fixture, n: usize,
     0
 }
 
+extern "C" {
+    fn fork() -> i32;
+    fn pipe(fds: *mut i32) -> i32;
+    fn read(fd: i32, buf: *mut u8, n: usize) -> isize;
+    fn write(fd: i32, buf: *const u8, n: usize) -> isize;
+    fn close(fd: i32) -> i32;
+    fn waitpid(pid: i32, status: *mut i32, options: i32) -> i32;
+    fn _exit(code: i32) -> !;
+}
+
+/// The pre-fork worker model: a process that has ALREADY used the library (`warm` randomized calls) duplicates itself
+/// with fork() — twice — and parent and both children each make three more calls. Whatever the library keeps in memory
+/// (a buffered generator, a cached seed) is now in three address spaces; every value exposed after the fork must still
+/// be unique across the three. This process is single-threaded (fork in a multi-threaded one is not defined behaviour).
+fn fork_child(lib: &'static dyn Lib, g: Grp, op: Op, fx: &Fixture, warm: usize) -> i32 {
+    let mut rec = Rec::new("C20");
+    for _ in 0..warm {
+        if call_once(&mut rec, lib, g, op, fx).is_err() {
+            return 2;
+        }
+    }
+    let after = |rec: &mut Rec| -> String {
+        let mut out = String::new();
+        for _ in 0..3 {
+            match call_once(rec, lib, g, op, fx) {
+                Ok(e) => {
+                    for (_, b) in e {
+                        out.push_str(&hex(&b));
+                        out.push('\n');
+                    }
+                }
+                Err(_) => out.push_str("ERR\n"),
+            }
+        }
+        out
+    };
+    let mut all: Vec<(usize, String)> = vec![];
+    for lane in 1..=2usize {
+        let mut fds = [0i32; 2];
+        if unsafe { pipe(fds.as_mut_ptr()) } != 0 {
+            return 2;
+        }
+        let pid = unsafe { fork() };
+        if pid < 0 {
+            return 2;
+        }
+        if pid == 0 {
+            // the worker: the same entropy device keeps serving (the seam's stream was duplicated with the process, as a
+            // kernel device would NOT be: move this copy to its own position so that only library-held state can repeat)
+            if let Some(mut dev) = seams::set_entropy(None) {
+                for _ in 0..(lane * 7919) {
+                    dev.next();
+                }
+                seams::set_entropy(Some(dev));
+            }
+            let s = after(&mut rec);
+            unsafe {
+                write(fds[1], s.as_ptr(), s.len());
+                close(fds[1]);
+                _exit(0);
+            }
+        }
+        unsafe { close(fds[1]) };
+        let mut buf = vec![0u8; 1 << 16];
+        let mut got = vec![];
+        loop {
+            let k = unsafe { read(fds[0], buf.as_mut_ptr(), buf.len()) };
+            if k <= 0 {
+                break;
+            }
+            got.extend_from_slice(&buf[..k as usize]);
+        }
+        unsafe {
+            close(fds[0]);
+            let mut st = 0i32;
+            waitpid(pid, &mut st, 0);
+        }
+        for l in String::from_utf8_lossy(&got).lines() {
+            all.push((lane, l.to_string()));
+        }
+    }
+    for l in after(&mut rec).lines() {
+        all.push((0, l.to_string()));
+    }
+    let mut sorted = all.clone();
+    sorted.sort_by(|a, b| a.1.cmp(&b.1));
+    match sorted.windows(2).find(|w| w[0].1 == w[1].1 && w[0].1 != "ERR") {
+        Some(w) => println!("DUP process {} and process {} (0 = parent, 1-2 = forked workers) expose the same value {} after {} warm-up calls", w[0].0, w[1].0, &w[0].1[..w[0].1.len().min(24)], warm),
+        None => println!("OK {}", all.len()),
+    }
+    0
+}
+
 pub fn child_main(args: &[String]) -> i32 {
     let env = crate::env::env();
     let g = grp_of(args[1].parse().unwrap_or(0));
@@ -448,6 +566,9 @@ pub fn child_main(args: &[String]) -> i32 {
     if args[0] != "off" {
         seams::set_entropy(Some(Xo::new(args[0].parse().unwrap_or(1))));
         seams::set_clock_ns(Some(EPOCH_NS + 1_000_000_007));
+    }
+    if args.get(5).map(|s| s.as_str()) == Some("fork") {
+        return fork_child(env.cur, g, op, &fx, n);
     }
     if args.get(5).map(|s| s.as_str()) == Some("marathon") {
         return marathon_child(env.cur, g, op, &fx, n, args[0].parse().unwrap_or(1));
